@@ -54,9 +54,9 @@ var c04AllPairs = func() []c04Pair {
 func c04Counts(tier string) (enum1, enum2, enum3, random int) {
 	n := len(c04AllPairs)
 	if tier == "thorough" {
-		return n, n * n, n * n * n, 60000
+		return n, n * n, n * n * n, 60000 + len(rtSizeCases(tier))
 	}
-	return n, n * n, 0, 8000
+	return n, n * n, 0, 8000 + len(rtSizeCases(tier))
 }
 
 func init() {
@@ -283,7 +283,7 @@ func runC04(c *core.Ctx) {
 		j := i - n1 - n2
 		pairs = []c04Pair{c04AllPairs[j/(np*np)], c04AllPairs[(j/np)%np], c04AllPairs[j%np]}
 	default:
-		c04Random(c)
+		c04Random(c, i-n1-n2-n3)
 		return
 	}
 	ents, exp := c04Build(pairs)
@@ -324,8 +324,14 @@ func runC04(c *core.Ctx) {
 }
 
 // c04Random checks the links of a random conflict-free feed with bystanders.
-func c04Random(c *core.Ctx) {
-	f := rgen.GenFeed(c.R, rgen.Opts{MaxTrips: 6, MaxVehs: 5, MaxAlerts: 2, MaxIDLess: 3, PassThroughSelectorsOnly: true})
+func c04Random(c *core.Ctx, k int) {
+	opts := rgen.Opts{MaxTrips: 6, MaxVehs: 5, MaxAlerts: 2, MaxIDLess: 3, PassThroughSelectorsOnly: true}
+	if sc := rtSizeCases(c.Tier); k < len(sc) {
+		opts = sc[k].opts
+		c.Feature("size-sweep")
+		c.Shape("size-sweep " + sc[k].name)
+	}
+	f := rgen.GenFeed(c.R, opts)
 	b := rgen.Marshal(f.Msg)
 	rt, err := gtfs.ParseRealtime(b, &gtfs.ParseRealtimeOptions{})
 	c.Eval(1)
@@ -416,6 +422,27 @@ func c04Random(c *core.Ctx) {
 			}
 			if trip.Vehicle.Trip == nil || !tripIDEq(trip.Vehicle.Trip.ID, trip.ID) {
 				c.Violationf("C04|not-mutual|Trip.Vehicle.Trip|random-idless-vehicle", detail(), "the id-less vehicle of trip %s does not lead back", f.Trips[ti].Key)
+			}
+			// the top-level entry of that id-less vehicle (recognised by the unique stop id of its position)
+			marker := fmt.Sprintf("vp-stop-%d", 2000+(-2-v))
+			var top *gtfs.Vehicle
+			for j := range rt.Vehicles {
+				if rt.Vehicles[j].ID == nil && rt.Vehicles[j].StopID != nil && *rt.Vehicles[j].StopID == marker {
+					top = &rt.Vehicles[j]
+				}
+			}
+			c.Cmp(3)
+			if top == nil {
+				c.Violationf("C04|vehicle-missing|random-idless-vehicle", detail(), "the id-less vehicle position %s is not in Vehicles", marker)
+				continue
+			}
+			if top.Trip == nil || !tripIDEq(top.Trip.ID, trip.ID) {
+				c.Violationf("C04|missing-link|Vehicle.Trip|random-idless-vehicle", detail(), "the top-level id-less vehicle %s should link to trip %s", marker, f.Trips[ti].Key)
+				continue
+			}
+			if a, b := canon.Dump(trip.Vehicle, c04VehOpts), canon.Dump(top, c04VehOpts); a != b {
+				_, d, _ := diffPath(a, b)
+				c.Violationf("C04|link-content|Trip.Vehicle|random-idless-vehicle", detail(), "what Trip.Vehicle reaches differs from the top-level id-less vehicle: %s", d)
 			}
 		}
 	}
